@@ -327,7 +327,7 @@ func Load(ctx context.Context, wd string, env []string, tags string, patterns []
 				}
 				calls, errs := solve(fset, out.out, ins, set)
 				if len(errs) == 0 {
-					if errs := checkInjectorCalls(fset, pkg.PkgPath, fn.Pos(), fn.Name.Name, out, calls); len(errs) > 0 {
+					if errs := checkInjectorCalls(fset, pkg.Types, fn.Pos(), fn.Name.Name, out, calls); len(errs) > 0 {
 						ec.add(errs...)
 						continue
 					}
